@@ -1,12 +1,11 @@
 //! The diagnostics system for `NaijaScript`.
 
-use std::fmt::Write;
+use std::fmt::{self, Write};
 use std::range::Range;
 
 use memchr_rs::memchr2;
 
 use crate::arena::{Arena, ArenaCow, ArenaString};
-use crate::arena_format;
 use crate::helpers::LenWriter;
 
 /// Byte-range span within source text.
@@ -42,10 +41,10 @@ impl Severity {
 
     #[inline]
     // Writes a diagnostic line to the appropriate output stream or buffer.
-    fn write_to_stream_or_buf(severity: Severity, s: &str, buf: Option<&mut ArenaString<'_>>) {
+    fn write_to_stream_or_buf<W: fmt::Write>(severity: Severity, s: &str, buf: Option<&mut W>) {
         if let Some(buf) = buf {
-            buf.push_str(s);
-            buf.push('\n');
+            let _ = buf.write_str(s);
+            let _ = buf.write_char('\n');
         } else {
             match severity {
                 Severity::Error => eprintln!("{s}"),
@@ -98,8 +97,15 @@ impl<'arena> Diagnostics<'arena> {
 
     /// Report all collected diagnostics to the terminal with rich formatting.
     pub fn report(&self, src: &str, filename: &str) {
-        let ansi = self.render_ansi(src, filename);
-        print!("{ansi}");
+        // One diagnostic at a time through a reused heap buffer: the whole rendering of a
+        // large batch does not have to fit into the arena (which never gives memory back).
+        let gutter_width = self.compute_gutter_width(&self.diagnostics, src);
+        let mut one = String::new();
+        for diag in &self.diagnostics {
+            one.clear();
+            self.render_diagnostic(diag, src, filename, gutter_width, Some(&mut one));
+            print!("{one}");
+        }
     }
 
     /// Check if there are any error-level diagnostics
@@ -119,13 +125,13 @@ impl<'arena> Diagnostics<'arena> {
         buf
     }
 
-    fn render_diagnostic(
+    fn render_diagnostic<W: fmt::Write>(
         &self,
         diag: &Diagnostic,
         src: &str,
         filename: &str,
         gutter_width: usize,
-        mut buf: Option<&mut ArenaString<'arena>>,
+        mut buf: Option<&mut W>,
     ) {
         let color = diag.severity.color_code();
         let (line, col, line_start, line_end) = self.line_col_from_span(src, diag.span.start);
@@ -145,7 +151,7 @@ impl<'arena> Diagnostics<'arena> {
             });
 
         // Render same-line labels as underlines with dashes
-        let mut label_lines = Vec::with_capacity_in(same_line_labels.len(), self.arena);
+        let mut label_lines = Vec::with_capacity(same_line_labels.len());
         for label in same_line_labels {
             // Convert absolute span to column position relative to line start
             let lbl_col = &src[line_start..label.span.start];
@@ -162,7 +168,7 @@ impl<'arena> Diagnostics<'arena> {
         }
 
         // Handle cross-line labels by showing their complete source context
-        let mut cross_line_displays = Vec::with_capacity_in(cross_line_labels.len(), self.arena);
+        let mut cross_line_displays = Vec::with_capacity(cross_line_labels.len());
         for label in cross_line_labels {
             let (label_line, label_col, label_line_start, label_line_end) =
                 self.line_col_from_span(src, label.span.start);
@@ -207,10 +213,9 @@ impl<'arena> Diagnostics<'arena> {
         }
     }
 
-    fn render_header(&self, severity: Severity, code: &str, message: &str) -> ArenaString<'arena> {
+    fn render_header(&self, severity: Severity, code: &str, message: &str) -> String {
         let color = severity.color_code();
-        arena_format!(
-            self.arena,
+        format!(
             "{BOLD}{color}{}[{code}]{RESET}: {BOLD}{message}{RESET}",
             severity.label()
         )
@@ -222,17 +227,17 @@ impl<'arena> Diagnostics<'arena> {
         line: usize,
         col: usize,
         color: &str,
-    ) -> ArenaString<'arena> {
-        arena_format!(self.arena, " {BOLD}{color}-->{RESET} {filename}:{line}:{col}")
+    ) -> String {
+        format!(" {BOLD}{color}-->{RESET} {filename}:{line}:{col}")
     }
 
     #[inline]
-    fn render_gutter(&self, line: usize, color: &str, width: usize) -> ArenaString<'arena> {
-        arena_format!(self.arena, "{BOLD}{color}{line:>width$} |{RESET} ")
+    fn render_gutter(&self, line: usize, color: &str, width: usize) -> String {
+        format!("{BOLD}{color}{line:>width$} |{RESET} ")
     }
 
-    fn render_plain_gutter(&self, color: &str, width: usize) -> ArenaString<'arena> {
-        arena_format!(self.arena, "{BOLD}{color}{:>width$} |{RESET} ", "")
+    fn render_plain_gutter(&self, color: &str, width: usize) -> String {
+        format!("{BOLD}{color}{:>width$} |{RESET} ", "")
     }
 
     // Build the caret `^^^` line that points to the error location.
@@ -242,9 +247,9 @@ impl<'arena> Diagnostics<'arena> {
         len: usize,
         color: &str,
         plain_gutter: &str,
-    ) -> ArenaString<'arena> {
+    ) -> String {
         let mut caret_line =
-            ArenaString::with_capacity_in(plain_gutter.len() + col + 4 + len, self.arena);
+            String::with_capacity(plain_gutter.len() + col + 4 + len);
         caret_line.push_str(plain_gutter);
         for _ in 0..(col - 1) {
             caret_line.push(' ');
@@ -267,11 +272,8 @@ impl<'arena> Diagnostics<'arena> {
         color: &str,
         message: &str,
         plain_gutter: &str,
-    ) -> ArenaString<'arena> {
-        let mut label_line = ArenaString::with_capacity_in(
-            plain_gutter.len() + lbl_col + 4 + dash_count,
-            self.arena,
-        );
+    ) -> String {
+        let mut label_line = String::with_capacity(plain_gutter.len() + lbl_col + 4 + dash_count);
         label_line.push_str(plain_gutter);
         for _ in 0..(lbl_col - 1) {
             label_line.push(' ');
@@ -360,8 +362,11 @@ impl<'arena> Diagnostics<'arena> {
 
     const TAB_WIDTH: usize = 4;
 
-    fn expand_tabs(&self, text: &str) -> ArenaString<'arena> {
-        let mut result = ArenaString::with_capacity_in(text.len() * 2, self.arena);
+    // The pieces of one rendered diagnostic are short-lived heap strings: the arena never
+    // gives memory back, and a copy of the source line per diagnostic exhausted it when many
+    // diagnostics sat on one long line.
+    fn expand_tabs(&self, text: &str) -> String {
+        let mut result = String::with_capacity(text.len() * 2);
         let mut col = 0;
         for ch in text.chars() {
             if ch == '\t' {
